@@ -101,7 +101,10 @@ CLAIMED = {
                      'lazy attributes that read the fields it writes, with no stale read in between; '
                      'the lookup tables of reassign_labels / relabel_consecutive have the '
                      'documented effect on every label array (listed labels -> new label, k-th '
-                     'label -> start+k, everything else unchanged); the border mask of '
+                     'label -> start+k, everything else unchanged), and the early return of '
+                     'relabel_consecutive is taken only when the labels already are start..start+n-1 '
+                     '(lemma over the real test expression; induction schema trusted, base and step '
+                     'discharged); the border mask of '
                      'remove_border_labels is True exactly within border_width of an edge for every '
                      'shape (zero width selects nothing); keep_labels / remove_masked_labels hand '
                      'remove_labels exactly the complement / the touching labels without a pixel '
